@@ -72,6 +72,7 @@ func runEpochs(r *hx.R, n int, w *hx.W, _ []string) error {
 		now := r.Range(1, 1000)
 		height := int64(1)
 		steps := 5 + r.Pick(40)
+		sameHeight := false
 		for i := 0; i < steps; i++ {
 			ctx = ctx.WithBlockHeight(height).WithBlockTime(decT(now))
 			if i == 0 || r.Chance(1, 6) {
@@ -130,6 +131,9 @@ func runEpochs(r *hx.R, n int, w *hx.W, _ []string) error {
 				})
 				w.Count("add:" + res)
 				w.Step(op, res+" | "+renderEpochs(k.AllEpochInfos(ctx)))
+				// the begin blocker can run at the very height at which an epoch was added (InitGenesis at the initial height of a
+				// restarted chain, an upgrade handler that adds an epoch): the recorded start height then says nothing about a tick
+				sameHeight = r.Chance(1, 2)
 				continue
 			}
 			// a block: advance time by one of several step shapes
@@ -146,7 +150,11 @@ func runEpochs(r *hx.R, n int, w *hx.W, _ []string) error {
 			case 5:
 				now += r.Range(1, 5) * 86400 * 1_000_000_000
 			}
-			height++
+			if sameHeight {
+				sameHeight = false
+			} else {
+				height++
+			}
 			ctx = ctx.WithBlockHeight(height).WithBlockTime(decT(now))
 			hooks.log = nil
 			res := hx.Recover(func() string {
